@@ -457,3 +457,38 @@ Proof.
   exists ps2, {| sl_start := Some 0%Z; sl_stop := Some 2%Z; sl_step := None |}, b. repeat split; assumption.
 Qed.
 End DRefuted.
+
+(* ------------------------------------------------------------ byaxis_in *)
+Section DP3.
+Context {T : Type} `{Num T}.
+Variable dv : dvariants.
+
+Lemma select_pos_spec {A} (l : list A) ps l' : select_pos l ps = Ok l' ->
+  Forall2 (fun p x => nth_error l (Z.to_nat p) = Some x) ps l'.
+Proof.
+  unfold select_pos. intro E. apply rall_Ok in E. induction E as [|p x ps l' Epx E IH]; constructor; auto.
+  destruct (nth_error l (Z.to_nat p)); inversion Epx; reflexivity.
+Qed.
+
+(* space.byaxis_in[idx] is a discretized space over exactly the selected axes of the partition
+   (interval ends and grid vectors, in the order of the positions), whose tensor space has the
+   shape of that sub-partition *)
+Theorem byaxis_in_spec (p : part T) (t : tsp T) i b : obyaxis_in dv (ODiscr p t) i = Ok b ->
+  exists ps p' t', b = ODiscr p' t' /\
+    axis_positions (Z.of_nat (length (p_grid p))) i = Ok ps /\
+    Forall2 (fun q x => nth_error (p_intv p) (Z.to_nat q) = Some x) ps (p_intv p') /\
+    Forall2 (fun q x => nth_error (p_grid p) (Z.to_nat q) = Some x) ps (p_grid p') /\
+    ts_shape t' = map (fun g => Z.of_nat (length g)) (p_grid p').
+Proof.
+  cbn [obyaxis_in]. destruct (match i with ASlice _ => _ | _ => false end); [discriminate|].
+  intro E. apply rbind_Ok in E as [ps [Eps E]]. apply rbind_Ok in E as [intv' [Ei E]].
+  apply rbind_Ok in E as [grid' [Eg E]]. apply rbind_Ok in E as [t' [Et E]].
+  destruct (Zs_eqb _ (ts_shape t')) eqn:Es; [|discriminate]. inversion E; subst b.
+  exists ps, {| p_intv := intv'; p_grid := grid' |}, t'. cbn. repeat split; auto.
+  - apply select_pos_spec, Ei.
+  - apply select_pos_spec, Eg.
+  - unfold Zs_eqb in Es. symmetry. revert Es. generalize (map (fun g : list T => Z.of_nat (length g)) grid') (ts_shape t').
+    induction l as [|x l IH]; intros [|y m]; cbn; try discriminate; auto.
+    intro E'. apply andb_true_iff in E' as [E1 E2]. apply Z.eqb_eq in E1. subst. f_equal. auto.
+Qed.
+End DP3.
